@@ -89,13 +89,16 @@ theorem break_in_main_loop_rejected (pre body : Stmt) (h : breaksOut body = true
         · obtain ⟨e, he⟩ := ihb hb te; rw [he]; exact ⟨e, rfl⟩
     | _ => intro hb; simp [breaksOut] at hb
   unfold tr
-  cases hacc : trTop {} pre with
-  | error e => exact ⟨e, rfl⟩
-  | ok acc =>
-    obtain ⟨e, he⟩ := key body h acc.te
-    refine ⟨e, ?_⟩
-    show (do let loop ← trNested acc.te true 0 body; pure _) = _
-    rw [he]; rfl
+  split
+  · unfold trCore
+    cases hacc : trTop {} pre with
+    | error e => exact ⟨e, rfl⟩
+    | ok acc =>
+      obtain ⟨e, he⟩ := key body h acc.te
+      refine ⟨e, ?_⟩
+      show (do let loop ← trNested acc.te true 0 body; pure _) = _
+      rw [he]; rfl
+  · exact ⟨_, rfl⟩
 
 /-- expression level: on well-typed expressions Python's value and C's value agree up to the declared-type
     conversion (the heart of the simulation) -/
@@ -236,7 +239,7 @@ theorem promoted_read_before_assignment :
     setup := .seq (.ifs (.cmp .gt (.var "c") (.int 0)) (.assign "x" (.int 5)) .skip) (.write (.bin .add (.var "x") (.int 0)))
     loop := .skip }
   have h : tr2 p = .ok c0 := by
-    simp [p, c0, tr2, trTop2, trTop, trChain2, trBody2, trNested, sortDecls, newDecls, addPromoted,
+    simp [p, c0, tr2, tr2Core, Prog.numbered, Stmt.numberedFrom, Stmt.tmpEnd, trTop2, trTop, trChain2, trBody2, trNested, sortDecls, newDecls, addPromoted,
       Reduino.Lemmas.C01p.sorted_single, inferTy, evalConst, Expr.nameFree, Py.eval, defaultOf, seqOf, List.lookup,
       bind, Except.bind, pure, Except.pure, Except.toOption]
   exact ⟨by rfl, c0, h, by rfl⟩
@@ -253,9 +256,42 @@ example :
       Py.run p 2 80 = .ok [.write 7, .write 8, .write 9] := by
   intro p
   have h : ∃ c, tr2 p = .ok c ∧ c.globals.map (·.1) = ["c", "abe", "zed", "s"] := by
-    simp [p, tr2, trTop2, trTop, trChain2, trBody2, trNested, sortDecls, newDecls, addPromoted,
+    simp [p, tr2, tr2Core, Prog.numbered, Stmt.numberedFrom, Stmt.tmpEnd, trTop2, trTop, trChain2, trBody2, trNested, sortDecls, newDecls, addPromoted,
       Reduino.Lemmas.C01p.sorted_single, Reduino.Lemmas.C01p.sorted_zed_abe, inferTy, evalConst, Expr.nameFree, Py.eval,
       defaultOf, seqOf, List.lookup, foldArg, bind, Except.bind, pure, Except.pure, Except.toOption]
   exact ⟨by decide, by decide, h, by rfl⟩
+
+/-- non-vacuity (W5): tuple assignment at top level, inside a `for` body (three targets, one of them bool) and in the main loop —
+    a Fibonacci-style update; the program is in the fragment, is accepted (temporaries numbered 0,1 / 2,3,4 / 5,6 by the threaded
+    counter), and both semantics run it to the same trace -/
+example :
+    let p : Prog :=
+      { pre := .seq (.assign "a" (.int 0)) (.seq (.assign "b" (.int 1)) (.seq (.assign "f" (.bool false))
+            (.seq (.tuple 0 ["a", "b"] [.var "b", .bin .add (.var "a") (.var "b")])
+             (.forRange "i" (.int 2)
+                (.tuple 2 ["a", "b", "f"] [.var "b", .bin .add (.var "a") (.int 1), .cmp .lt (.var "a") (.var "b")]))))),
+        body := some (.seq (.tuple 5 ["a", "b"] [.var "b", .bin .add (.var "a") (.var "b")]) (.write (.var "a"))) }
+    InF p = true ∧ Py.run p 3 60 = .ok [.write 2, .write 4, .write 6] ∧
+      (∃ c, tr p = .ok c ∧ C.run c 3 60 = .ok [.write 2, .write 4, .write 6] ∧
+        c.loop.lines = ["int __tmp_assign_5 = b;", "int __tmp_assign_6 = (a + b);", "a = __tmp_assign_5;", "b = __tmp_assign_6;",
+          "Serial.println(a);"]) := by
+  intro p
+  exact ⟨by decide +kernel, by rfl, _, rfl, by rfl, by decide +kernel⟩
+
+/-- a swap is a swap: Python binds the targets after evaluating both right-hand sides; the sketch goes through the temporaries -/
+example :
+    let p : Prog := { pre := .seq (.assign "a" (.int 1)) (.seq (.assign "b" (.int 2))
+                        (.seq (.tuple 0 ["a", "b"] [.var "b", .var "a"]) (.seq (.write (.var "a")) (.write (.var "b"))))), body := none }
+    InF p = true ∧ Py.run p 0 50 = .ok [.write 2, .write 1] ∧ (∃ c, tr p = .ok c ∧ C.run c 0 50 = .ok [.write 2, .write 1]) := by
+  intro p
+  exact ⟨by decide +kernel, by rfl, _, rfl, by rfl⟩
+
+/-- a program whose stored temporary numbers are not the parser's is not a translation unit of the model -/
+example : tr { pre := .seq (.assign "a" (.int 1)) (.seq (.assign "b" (.int 2)) (.tuple 7 ["a", "b"] [.var "b", .var "a"])), body := none }
+    = .error .outsideFragment := by rfl
+
+/-- a first assignment by tuple (the all-new-at-global-scope form, or the local declarations of finding F17) is outside the model -/
+example : tr { pre := .seq (.assign "a" (.int 1)) (.tuple 0 ["a", "b"] [.int 2, .var "a"]), body := none }
+    = .error .outsideFragment := by rfl
 
 end Reduino.Props.C01
